@@ -8,7 +8,7 @@ fi
 mkdir -p out/logs
 for id in $ids; do
   s=$(date +%s)
-  ./check $id --tier ${TIER:-quick} > out/logs/$id.log 2>&1
+  ./check $id --tier ${TIER:-quick} $EXTRA > out/logs/$id.log 2>&1
   rc=$?
   e=$(date +%s)
   echo "$id exit=$rc wall=$((e-s))s $(grep -c '^VIOLATION' out/logs/$id.log) violations, $(grep -c '^KNOWN-FINDING' out/logs/$id.log) known; $(grep -o 'cases=[0-9]* evaluations=[0-9]* distinct_nontrivial=[0-9]*.*budget_exhausted=[A-Za-z]*' out/logs/$id.log | head -1)"
